@@ -219,6 +219,146 @@ impl Workload for Positions {
     }
 }
 
+/// Language-server sessions on workspaces full of multi-byte comments and CRLF between tokens: every range the
+/// server sends for a span (definition and reference locations, the range offered by prepareRename) must select
+/// exactly that span's text in the client's document.
+pub struct LspRanges {
+    pub n: u64,
+}
+
+impl LspRanges {
+    fn case(&self, seed: u64, idx: u64, st: &mut Stats) -> Option<super::common::WtCase> {
+        use super::common::*;
+        let mut c = gen_wt_case(seed, "c16nav", idx, &super::c17::cfg(), st)?;
+        with_trivia(&mut c, seed, "c16nav", idx);
+        if idx % 4 == 2 {
+            with_overflowing_literal(&mut c);
+        }
+        Some(c)
+    }
+    fn judge(&self, c: &super::common::WtCase, idx: u64, st: &mut Stats) -> Vec<Violation> {
+        // navigation answers against the generator's span table (C17's sweep, every position of every module)
+        let mut v = super::c17::run_case(c, 1, idx as usize, st);
+        for x in v.iter_mut() {
+            if let Some(sig) = x.detail.get("signature").and_then(Value::as_str).map(str::to_owned) {
+                x.detail["signature"] = json!(sig.replacen("C17 ", "C16 lsp-range: ", 1));
+            }
+        }
+        if v.is_empty() {
+            v = prepare_ranges(c, idx, st);
+        }
+        v
+    }
+}
+
+/// The range answered by textDocument/prepareRename, wherever the server offers a rename, selects exactly one
+/// identifier token of the document (the name or the qualifier of an occurrence of the generator's table).
+fn prepare_ranges(c: &super::common::WtCase, idx: u64, st: &mut Stats) -> Vec<Violation> {
+    use crate::drive::cli::TempDir;
+    use crate::drive::lsp::{file_uri, ClientDoc, Lsp};
+    let mut out = Vec::new();
+    let dir = TempDir::new("c16nav");
+    super::c17::write_workspace(&dir.path, c);
+    let Ok(mut lsp) = Lsp::start(&dir.path, None) else {
+        return vec![Violation::new("the language server did not start", json!({"signature": "C16 lsp-range: server-start"}))];
+    };
+    let mut rng = crate::util::Rng::for_case(idx, "c16nav-pos", idx);
+    for pm in &c.printed {
+        let doc = ClientDoc::new(&pm.text);
+        let uri = file_uri(&dir.path.join(&pm.file));
+        let unit = |b: usize| doc.offset_of(doc.position_of_byte(&pm.text, b));
+        // identifier tokens of the module, in UTF-16 units of the client's document
+        let mut tokens: Vec<(usize, usize)> = Vec::new();
+        let mut probes: Vec<usize> = Vec::new();
+        for o in &pm.occs {
+            tokens.push((unit(o.range.start), unit(o.range.end)));
+            probes.push(o.range.start);
+            probes.push(o.range.start + o.range.len() / 2);
+            if let Some(q) = &o.qual {
+                tokens.push((unit(q.start), unit(q.end)));
+                probes.push(q.start);
+            }
+        }
+        rng.shuffle(&mut probes);
+        probes.truncate(40);
+        for b in probes {
+            if !pm.text.is_char_boundary(b) {
+                continue;
+            }
+            let pos = doc.position_of_byte(&pm.text, b);
+            let r = match lsp.position_request("textDocument/prepareRename", &uri, pos[0], pos[1]) {
+                Ok(r) => r,
+                Err(e) => {
+                    out.push(Violation::new(
+                        "the language server died or stopped answering on prepareRename",
+                        json!({"signature": "C16 lsp-range: server-failure on prepareRename", "error": crate::util::clip(&format!("{e:?}"), 300)}),
+                    ));
+                    lsp.shutdown();
+                    return out;
+                }
+            };
+            st.inc("prepare_rename_requests");
+            let (Some(sl), Some(sc), Some(el), Some(ec)) = (
+                r["start"]["line"].as_u64(),
+                r["start"]["character"].as_u64(),
+                r["end"]["line"].as_u64(),
+                r["end"]["character"].as_u64(),
+            ) else {
+                continue;
+            };
+            st.inc("prepare_rename_ranges_checked");
+            // the range as the client reads it (positions past a line end are clamped by `offset_of`, as the protocol says)
+            let got = (doc.offset_of([sl as u32, sc as u32]), doc.offset_of([el as u32, ec as u32]));
+            let exact = doc.position_of(got.0) == [sl as u32, sc as u32] && doc.position_of(got.1) == [el as u32, ec as u32];
+            if (!tokens.contains(&got) || !exact) && out.len() < 3 {
+                let held = if got.0 <= got.1 && got.1 <= doc.units.len() { String::from_utf16_lossy(&doc.units[got.0..got.1]) } else { String::new() };
+                out.push(Violation::new(
+                    "the range offered by prepareRename does not select an identifier of the client's document",
+                    json!({"signature": "C16 lsp-range: prepareRename range is not an identifier token", "module": pm.file, "position": pos,
+                           "range": r, "selects": held}),
+                ));
+            }
+        }
+    }
+    lsp.shutdown();
+    out
+}
+
+impl Workload for LspRanges {
+    fn len(&self) -> u64 {
+        self.n
+    }
+    fn case_json(&self, seed: u64, idx: u64) -> Value {
+        let mut st = Stats::new();
+        match self.case(seed, idx, &mut st) {
+            Some(c) => json!({"seed": seed, "index": idx, "sources": c.sources.to_json()}),
+            None => json!({"skipped": true}),
+        }
+    }
+    fn run(&self, seed: u64, idx: u64, st: &mut Stats) -> Vec<Violation> {
+        let Some(c) = self.case(seed, idx, st) else { return vec![] };
+        let v = self.judge(&c, idx, st);
+        st.nontrivial(hash64(&c.sources.files));
+        v
+    }
+    fn run_json(&self, case: &Value, st: &mut Stats) -> Vec<Violation> {
+        if case.get("skipped").is_some() {
+            return vec![];
+        }
+        // the span table comes from the generator: regenerate from (seed, index)
+        let seed = case["seed"].as_u64().unwrap_or(1);
+        let idx = case["index"].as_u64().unwrap_or(0);
+        let Some(c) = self.case(seed, idx, st) else { return vec![] };
+        self.judge(&c, idx, st)
+    }
+    fn chunk(&self) -> u64 {
+        2
+    }
+    fn case_timeout_s(&self) -> u64 {
+        300
+    }
+}
+
 pub fn run(ctx: &Ctx) -> i32 {
     let mut acc = Acc::new(ctx);
     let wl = Positions::new(ctx.quick());
@@ -231,6 +371,10 @@ pub fn run(ctx: &Ctx) -> i32 {
         located_only: Some("C16"),
     };
     acc.pool(&hs, "c15loc-c16", true);
+    // ... and every location answered to definition / references requests, and every range offered by
+    // prepareRename, on workspaces with multi-byte comments and CRLF between the tokens
+    let nav = LspRanges { n: if ctx.quick() { 100 } else { 3000 } };
+    acc.pool(&nav, "c16nav", true);
     // Canary: the reference must disagree with a deliberately wrong conversion (UTF-8 length for UTF-16 length).
     let m = Model::new("é\na");
     let canary_ok = m.to_position(3) == (1, 0) && m.to_offset(0, 5) == Some(2) && m.to_offset(7, 0) == Some(4);
@@ -241,7 +385,7 @@ pub fn run(ctx: &Ctx) -> i32 {
     let max_len = wl.max_len;
     acc.finish(
         "exploration",
-        &format!("all texts of <= {max_len} units over {{a, é, €, 😉, LF, CRLF}}, every unit-boundary offset, every position with line <= lines+1 and character <= units+2 (positions strictly inside a surrogate pair skipped), every span; plus recorded language-server sessions over C15's histories (no fresh server): the error the library pipeline locates in the current texts must be among the diagnostics published for the document of its module, with exactly the range of its span in the client's text; non-trivial = text has a multi-byte character and a line terminator; distinct by text hash (capped sample per chunk)"),
+        &format!("all texts of <= {max_len} units over {{a, é, €, 😉, LF, CRLF}}, every unit-boundary offset, every position with line <= lines+1 and character <= units+2 (positions strictly inside a surrogate pair skipped), every span; plus recorded language-server sessions over C15's histories (no fresh server): the error the library pipeline locates in the current texts must be among the diagnostics published for the document of its module, with exactly the range of its span in the client's text; plus navigation sessions of the real oal-lsp on generated multi-module workspaces with multi-byte comments and CRLF between tokens (some after a literal the lexer drops): the locations answered to definition and references requests at every position are the ranges of the generator's span table in an independent UTF-16 line model, and every range offered by prepareRename selects exactly one identifier token; non-trivial = text has a multi-byte character and a line terminator; distinct by text hash (capped sample per chunk)"),
         1000,
         true,
         &["reference conversion built on encode_utf16 and an explicit line table", "lone CR outside the property's alphabet"],
